@@ -30,7 +30,10 @@ RULE = ("group: every group class x shapes (empty ranges / graphs, isolated vert
         "x offsets {0,1,7,100} x all indices, wildcard patterns, illegal indices/arity/literals, label formats "
         "(default, custom, too few / too many placeholders, malformed); hist: random histories of 1..14 operations "
         "(group creation of every kind, add_clause with check True/False incl. 0 literals and empty clauses, "
-        "update_variable_number incl. negative); distinct = distinct request line; non-trivial = the group / history is non-empty")
+        "update_variable_number incl. negative); slot histories: ONE graph object kept by the author of the formula, edge-variable "
+        "groups made over it repeatedly with in-place edits of the object in between (simple graphs: edge rewired, degree-preserving "
+        "switch, labels exchanged, net-zero runs -- vertex and edge counts unchanged; directed / bipartite objects grow), in one "
+        "formula (`edit` operations in hist) and across formulas (graph_reuse: group / hist cases over the same live object); distinct = distinct request line; non-trivial = the group / history is non-empty")
 ASSUMPTIONS = [
     "label format strings are within the modelled fragment of str.format: literal text, {{, }}, {} and {N}",
     "indices, pattern entries and literals are Python ints or None; graphs are cnfgen graph objects",
@@ -92,6 +95,29 @@ def mk_bipartite(g):
     return B
 
 
+def spec_value(spec):
+    """the graph of a graph-based group specification as a value of common's reuse histories"""
+    g = spec["G"]
+    if spec["kind"] in ("bipartite", "sparse_mapping"):
+        return common.gvalue("bipartite", (g["l"], g["r"]), g["edges"])
+    return common.gvalue("simple" if spec["kind"] == "graph" else "digraph", g["n"], g["edges"])
+
+
+def spec_graph(_, value):
+    """the "G" entry of a specification of the same kind for the graph `value`"""
+    if value["kind"] == "bipartite":
+        return {"l": value["l"], "r": value["r"], "edges": value["edges"]}
+    return {"n": value["n"], "edges": value["edges"]}
+
+
+def documented_indices(spec):
+    """the legal indices of a graph-based group: the edges of the graph it was given (simple graphs: u < v)"""
+    es = {tuple(e) for e in spec["G"]["edges"]}
+    if spec["kind"] == "graph":
+        es = {(min(e), max(e)) for e in es}
+    return sorted(es)
+
+
 def enc_spec(spec):
     k = spec["kind"]
     out = [KINDCODE[k]]
@@ -122,10 +148,17 @@ def create(F, spec, pool=None):
     kw = {} if spec.get("label") is None else {"label": spec["label"]}
     if pool is not None and "G" in spec:
         maker = {"bipartite": mk_bipartite, "sparse_mapping": mk_bipartite, "graph": mk_graph, "digraph": mk_digraph}[k]
-        key = (maker.__name__, repr(spec["G"]))
-        if key not in pool:
-            pool[key] = maker(spec["G"])
-        G = pool[key]
+        if spec.get("slot") is not None:
+            # a graph object that the author of the formula keeps (and edits in place between two groups, `edit` ops)
+            key = ("slot", spec["slot"])
+            if key not in pool:
+                pool[key] = common.LiveArg(spec_value(spec), "cnfgen", spec["slot"])
+            G = pool[key].obj
+        else:
+            key = (maker.__name__, repr(spec["G"]))
+            if key not in pool:
+                pool[key] = maker(spec["G"])
+            G = pool[key]
         if k == "bipartite":
             return F.new_bipartite_edges(G, **kw)
         if k == "sparse_mapping":
@@ -471,13 +504,13 @@ def raises_value_error(fn):
     return False
 
 
-def group_oracle(spec, off, rng_seed):
+def group_oracle(spec, off, rng_seed, pool=None):
     def oracle():
         F = CNF()
         F.update_variable_number(off)
         legal = plainly_legal(spec)
         try:
-            g = create(F, spec)
+            g = create(F, spec, pool=pool() if pool else None)
         except Exception as e:
             if legal:
                 return {"creation_raised_on_a_legal_specification": type(e).__name__}
@@ -495,6 +528,8 @@ def group_oracle(spec, off, rng_seed):
             return {"number_of_indices": len(idxs), "len": n}
         if len(set(idxs)) != n:
             return {"repeated_index": True}
+        if "G" in spec and sorted(idxs) != documented_indices(spec):
+            return {"legal_indices": [list(t) for t in idxs[:40]], "edges_of_the_graph_given": [list(t) for t in documented_indices(spec)[:40]]}
         is_word0 = spec["kind"] in ("combinations", "permutations", "words", "combinations_with_replacement")
         for pos, t in enumerate(idxs):
             v = g(*t)
@@ -696,11 +731,21 @@ def foreign_indices(spec, known, rng):
     return [t for t in out if t not in known]
 
 
-def build_group(info):
+def live_pool(args):
+    """the pool of a history whose slot graphs are the caller's live objects (common.reuse_cases)"""
+    import types
+    if args is None:
+        return None
+    return lambda: {("slot", s): types.SimpleNamespace(obj=thunk()) for s, thunk in args.items()}
+
+
+def build_group(info, args=None):
     spec, off, qseed = info["spec"], info["off"], info.get("qseed", 0)
     state = {}
+    pool = live_pool(args)
 
     def queries():
+        # (the query list is made with a group over a FRESH graph: it is part of the request, fixed before anything runs)
         if "qs" not in state:
             F = CNF()
             F.update_variable_number(off)
@@ -714,7 +759,7 @@ def build_group(info):
     def impl():
         F = CNF()
         F.update_variable_number(off)
-        g = create(F, spec)
+        g = create(F, spec, pool=pool() if pool else None)
         parts = ["{} {}".format(g.ids.start, len(g))]
         for q in queries():
             parts.append(answer(g, q))
@@ -728,11 +773,13 @@ def build_group(info):
     k = spec["kind"]
     cls = k
     nontrivial = len(qs) > 3
-    return Case("group", r, impl, group_oracle(spec, off, qseed), cls=cls, nontrivial=nontrivial, info=info)
+    return Case("group", r, impl, group_oracle(spec, off, qseed, pool), cls=cls, nontrivial=nontrivial, info=info)
 
 
 # ------------------------------------------------------------------ histories
 def enc_op(op):
+    if op["op"] == "edit":
+        return None              # the author edits his own graph object: not an operation of the formula
     if op["op"] == "clause":
         return [0, 1 if op["check"] else 0] + enc_list(op["lits"])
     if op["op"] == "update":
@@ -786,14 +833,20 @@ def handed_out(created, picks):
 class Created(list):
     """the groups returned by the successful new_* calls of one history, plus the graph objects given to them"""
 
-    def __init__(self):
+    def __init__(self, pool=None):
         list.__init__(self)
-        self.pool = {}
+        self.pool = {} if pool is None else pool
 
 
 def apply_op(F, op, created=None):
     """returns the outcome string; `created` collects the groups returned by the successful new_* calls"""
     try:
+        if op["op"] == "edit":
+            live = getattr(created, "pool", {}).get(("slot", op["slot"]))
+            if live is not None:
+                for o in op["ops"]:
+                    live.apply(o)
+            return None
         if op["op"] == "clause":
             F.add_clause(list(op["lits"]), check=op["check"])
             return "-"
@@ -841,11 +894,12 @@ def initial_formula(init, upto=None):
     return CNF(ITER_KINDS[init["kind"]](cl))
 
 
-def build_hist(info, prop="C11"):
+def build_hist(info, prop="C11", args=None):
     ops, dfmt = info["ops"], info.get("dfmt", "x{}")
     init = info.get("init")
     case = None
     state = {}
+    pool = live_pool(args)
 
     def impl():
         parts = []
@@ -861,7 +915,7 @@ def build_hist(info, prop="C11"):
         unnamed = False
         zero_kept = False
         unchecked_beyond = False
-        created = Created()
+        created = Created(pool() if pool else None)
         for op in ops:
             if op["op"] == "group" and op["spec"]["kind"] == "variable":
                 if uncovered(F):
@@ -874,6 +928,8 @@ def build_hist(info, prop="C11"):
                 if not op["check"] and any(abs(l) > F.number_of_variables() for l in op["lits"]):
                     unchecked_beyond = True
             out = apply_op(F, op, created)
+            if op["op"] == "edit":
+                continue
             parts.append("{}:{}:{}".format(F.number_of_variables(), max_mentioned(F), out))
         state.update(gap_single=gap_single, unnamed=unnamed, zero_kept=zero_kept, unchecked_beyond=unchecked_beyond)
         if prop == "C11":
@@ -890,7 +946,7 @@ def build_hist(info, prop="C11"):
 
     def oracle_c11():
         F = initial_formula(init)
-        created = Created()
+        created = Created(pool() if pool else None)
         for op in ops:
             if op["op"] == "use":
                 # index -> identifier -> index on the groups as they are in the MIDDLE of a history
@@ -907,7 +963,15 @@ def build_hist(info, prop="C11"):
                         return {"group": type(g).__name__, "index": list(t), "identifier": lit, "to_index_raised": type(e).__name__}
                     if back != t:
                         return {"group": type(g).__name__, "index": list(t), "identifier": lit, "to_index": list(back)}
+            ncreated = len(created)
             apply_op(F, op, created)
+            if len(created) > ncreated and "G" in op["spec"]:
+                # a group over a graph enumerates the edges the graph has when the group is made
+                got = sorted(tuple(t) for t in created[-1].indices())
+                if got != documented_indices(op["spec"]):
+                    return {"group": type(created[-1]).__name__, "legal_indices": [list(t) for t in got[:40]],
+                            "edges_of_the_graph_given": [list(t) for t in documented_indices(op["spec"])[:40]],
+                            "graph_object": "kept by the caller, edited in place between two groups" if op["spec"].get("slot") else "fresh"}
         try:
             names = list(F.all_variable_labels(dfmt))
         except Exception as e:
@@ -980,7 +1044,7 @@ def build_hist(info, prop="C11"):
 
         F.add_clause = add_clause
         F._add_variable_group = add_group
-        created = Created()
+        created = Created(pool() if pool else None)
         at_creation = {}
         for op in ops:
             before = F.number_of_variables()
@@ -1010,7 +1074,8 @@ def build_hist(info, prop="C11"):
         return None
 
     enc = []
-    allops = [{"op": "clause", "lits": list(c), "check": True} for c in (init["clauses"] if init else [])] + list(ops)
+    allops = [{"op": "clause", "lits": list(c), "check": True} for c in (init["clauses"] if init else [])] + \
+        [op for op in ops if op["op"] != "edit"]
     for op in allops:
         enc += enc_op(op)
     r = req("vg_hist", common.enc_str(dfmt), len(allops), enc)
@@ -1020,11 +1085,16 @@ def build_hist(info, prop="C11"):
 
 
 # ------------------------------------------------------------------ build / generators
-def build(suite, info):
+REUSE_SUITE = "graph_reuse"   # groups made over ONE graph object that its owner edits in place between them, across formulas
+
+
+def build(suite, info, args=None):
     if suite == "group":
-        return build_group(info)
+        return build_group(info, args)
     if suite == "hist":
-        return build_hist(info, "C11")
+        return build_hist(info, "C11", args)
+    if suite == REUSE_SUITE:
+        return common.reuse_cases(info["hist"], build, REUSE_SUITE)[info["step"]]
     raise ValueError("unknown suite " + suite)
 
 
@@ -1225,6 +1295,85 @@ def gen_hist(rng, clean):
     return info
 
 
+def _slot_value(rng, kind):
+    if kind == "bipartite":
+        l, r = rng.randint(2, 4), rng.randint(2, 4)
+        es = [(u, v) for u in range(1, l + 1) for v in range(1, r + 1) if rng.random() < .5] or [(1, 1)]
+        return common.gvalue(kind, (l, r), es)
+    n = rng.randint(3, 6)
+    es = [(u, v) for u in range(1, n + 1) for v in range(1, n + 1)
+          if (u < v or (kind == "digraph" and u != v and rng.random() < .3)) and rng.random() < .45] or [(1, 2)]
+    return common.gvalue(kind, n, es)
+
+
+def _slot_spec(rng, value, slot):
+    kind = {"simple": "graph", "digraph": "digraph", "bipartite": rng.choice(["bipartite", "sparse_mapping"])}[value["kind"]]
+    spec = {"kind": kind, "G": spec_graph(None, value), "slot": slot,
+            "label": rng.choice([None, None] + list(GOOD_LABELS[kind]))}
+    if kind == "digraph":
+        spec.update(sortby=rng.choice(["pred", "succ"]), explicit_sortby=rng.random() < .5)
+    return spec
+
+
+def gen_slot_hist(rng):
+    """ONE formula whose author keeps a graph object, makes edge-variable groups over it repeatedly and edits the object in
+    place between two groups (`edit` operations: the facility of harness/common.py; simple graphs: edge rewired, switch,
+    labels exchanged -- counts unchanged; directed / bipartite objects can only grow), with clauses over the groups
+    and raises of the variable count in between"""
+    # (not bipartite objects: a bipartite-edge / sparse-mapping group keeps a reference to the caller's graph instead of an
+    # index of its own -- observation O1 of notes/C19.md -- so what it answers after the caller edited the graph is not covered
+    # by the property; over a bipartite object the groups are made in SEPARATE formulas, see reuse_histories)
+    value = _slot_value(rng, rng.choice(["simple", "simple", "simple", "digraph"]))
+    ops, ngroups = [], 0
+    if rng.random() < .3:
+        ops.append({"op": "update", "n": rng.choice([1, 2, 5, 9])})
+    for j in range(rng.randint(2, 4)):
+        if j > 0:
+            eops, names = [], []
+            for _ in range(rng.choice([1, 1, 2])):
+                name, e = common.gen_reuse_edit(rng, value, "cnfgen")
+                names.append(name)
+                for o in e:
+                    value = common.value_after(value, o)
+                    eops.append(o)
+            ops.append({"op": "edit", "slot": "s", "ops": eops, "moves": names})
+        ops.append({"op": "group", "spec": _slot_spec(rng, value, "s")})
+        ngroups += 1
+        x = rng.random()
+        if x < .5:
+            ops.append({"op": "use", "check": rng.random() < .5,
+                        "picks": [[rng.randrange(ngroups), rng.randrange(40), rng.choice([1, -1])] for _ in range(rng.randint(1, 3))]})
+        elif x < .65:
+            ops.append({"op": "group", "spec": gen_spec(rng, rng.choice(["block", "mapping", "words"]), small=True)})
+            ngroups += 1
+        elif x < .8:
+            ops.append({"op": "update", "n": rng.choice([0, 3, 20, 40])})
+    return {"ops": ops, "dfmt": "x{}"}
+
+
+def reuse_histories(rng, tier):
+    """ACROSS formulas: one graph object (cnfgen Graph / DirectedGraph / BipartiteGraph) kept by its owner, who makes a group
+    over it in a new formula (a `group` case with its queries, or a short `hist` case), edits it in place, makes the next ..."""
+    out = []
+    offsets = [0, 0, 1, 7, 100]
+    for i in range(40 if tier == "quick" else 400):
+        value = _slot_value(rng, ["simple", "simple", "simple", "digraph", "bipartite"][i % 5])
+
+        def pick(rng, values, prev):
+            v = values["g"]
+            if rng.random() < .6:
+                return ["group", {"spec": _slot_spec(rng, v, "g"), "off": rng.choice(offsets), "qseed": rng.randrange(10 ** 6)}]
+            ops = [{"op": "group", "spec": _slot_spec(rng, v, "g")},
+                   {"op": "use", "check": True, "picks": [[0, rng.randrange(40), rng.choice([1, -1])] for _ in range(2)]},
+                   {"op": "group", "spec": _slot_spec(rng, v, "g")}]
+            if rng.random() < .5:
+                ops.insert(0, {"op": "update", "n": rng.choice([1, 3, 8])})
+            return ["hist", {"ops": ops, "dfmt": "x{}"}]
+        slots = {"g": {"value": value, "form": "cnfgen", "salt": rng.randint(0, 10 ** 6)}}
+        out.append(common.gen_reuse_history(rng, slots, rng.randint(3, 5), pick))
+    return out
+
+
 CORPUS_GROUPS = [
     {"spec": {"kind": "combinations_with_replacement", "n": 3, "k": 2, "label": None}, "off": 0},      # D22
     {"spec": {"kind": "block", "ranges": [3, 5, 4, 3], "label": None}, "off": 3},
@@ -1308,6 +1457,13 @@ def cases(ctx):
         yield build_group(info)
     for info in hist_infos(ctx):
         yield build_hist(info, "C11")
+    # edge-variable groups made repeatedly over ONE graph object that its owner edits in place: in one formula ...
+    rng = common.sub_rng(ctx["seed"], "C11", "slots")
+    for i in range(60 if ctx["tier"] == "quick" else 800):
+        yield build_hist(gen_slot_hist(rng), "C11")
+    # ... and across formulas
+    for hist in reuse_histories(common.sub_rng(ctx["seed"], "C11", "reuse"), ctx["tier"]):
+        yield from common.reuse_cases(hist, build, REUSE_SUITE)
 
 
 def search(ctx, case):
@@ -1316,6 +1472,8 @@ def search(ctx, case):
     r = common.run_oracle(case)
     if r is not None and not case.cls.startswith("D"):
         return {"suite": case.suite, "info": case.info, "failure": r}
+    if case.suite == REUSE_SUITE:
+        return None
     if case.suite == "group":
         for off in OFFSETS + [2, 13]:
             for qseed in range(3):
